@@ -6,6 +6,7 @@
 package interp
 
 import (
+	"context"
 	"io"
 	"time"
 )
@@ -54,3 +55,8 @@ func newStdinFile(r io.Reader) (stdinFile, error) {
 
 // stdinTerminal always reports false, as js/wasm has no terminals.
 func stdinTerminal(stdin stdinFile) (int, bool) { return -1, false }
+
+// unblockReadsOnCancel does nothing, as read deadlines are not supported.
+func unblockReadsOnCancel(ctx context.Context, f stdinFile) (done func()) {
+	return func() {}
+}
